@@ -6,7 +6,7 @@
     correspondence check (same sessions, 1 thread vs N threads with all parallel cut-offs 0). *)
 From Coq Require Import List ZArith Bool Permutation.
 Import ListNotations.
-Require Import Verif.Egg.Model Verif.Egg.Merge Verif.Par.Shards.
+Require Import Verif.gen.SourceFacts Verif.Egg.Model Verif.Egg.Merge Verif.Par.Shards.
 
 Theorem c06_shard_merge : forall (h : list val -> nat) m t ws k order,
   NoDup order -> In (h k) order ->
@@ -20,6 +20,22 @@ Theorem c06_worker_partition : forall m t k (ws ws' : list (list val * Z)),
   int_get (insert_all m t (mk_rows ws)) k = int_get (insert_all m t (mk_rows ws')) k.
 Proof. exact worker_partition_irrelevant. Qed.
 Print Assumptions c06_worker_partition.
+
+(** the hypothesis of [c06_shard_merge] holds of the source as written now: `hash_code` hashes the
+    key columns only and the shard id is derived from that hash alone (regenerated fact) *)
+Theorem c06_source_shards_by_key : shard_hash_input = ShardByKey.
+Proof. exact source_shard_is_by_key. Qed.
+Print Assumptions c06_source_shards_by_key.
+
+(** ... and it is needed: a shard function that looks at the value column makes the result depend
+    on the order in which shards are processed *)
+Theorem c06_value_dependent_shard_refuted :
+  let ws := [mkRow [VId 0] (VInt 5) false; mkRow [VId 0] (VInt 3) false] in
+  let hr := fun w => match rret w with VInt 5%Z => 1 | _ => 0 end in
+  tab_get (insert_all MNew [] (flat_map (fun i => shard_row hr i ws) [0; 1])) [VId 0] = Some (VInt 5)
+  /\ tab_get (insert_all MNew [] ws) [VId 0] = Some (VInt 3).
+Proof. exact value_dependent_shard_refuted. Qed.
+Print Assumptions c06_value_dependent_shard_refuted.
 
 Example c06_example :
   let ws := [mkRow [VId 0] (VInt 5) false; mkRow [VId 1] (VInt 1) false; mkRow [VId 0] (VInt 3) false] in
